@@ -111,6 +111,116 @@ def run(R):
     r1(R)
     r2(R)
     r3(R)
+    r4(R)
+
+
+def r4(R):
+    """estimates saturate, so whatever combines them must saturate too"""
+    from lib.taint import Taint
+    prog = R.prog
+    R.rule("C17-R4", "planning arithmetic cannot panic: the cost estimator's cardinality estimates are products that saturate at u64::MAX (a few "
+                     "unconnected patterns over a few thousand triples are enough), so every `+` / `*` / `sum` / `product` that combines values "
+                     "returned by the estimator's u64 functions - in the estimator and in whatever reachable code consumes them - is a "
+                     "saturating (or checked-and-handled) operation. The project's dev and test profiles set overflow-checks, where an "
+                     "unchecked `+` on a saturated estimate panics inside execute_sparql_query for a request whose answer is empty")
+    ents = []
+    for e in ("execute_query::execute_sparql_query", "execute_query::execute_sparql_update", "execute_query::execute_query_rayon_parallel2_volcano"):
+        b = prog.one(e, crate="kolibrie")
+        if b is not None:
+            ents.append(b.key)
+    reach = prog.reachable(ents)
+    est = {k for k, b in prog.bodies.items() if b.crate == "kolibrie" and b.file.endswith("cost/estimator.rs") and not b.is_closure
+           and b.local_ty(0) == "u64" and k in reach}
+    R.floor("C17-R4", "u64-valued estimator functions reachable from the string entry points", len(est), 6)
+    if not est:
+        return
+    roots = set()
+    for k in reach:
+        b = prog.bodies.get(k)
+        if b is None or b.crate != "kolibrie":
+            continue
+        fam = prog.family(b.root if b.is_closure else k)
+        if any(c.key in est for x in fam for c in x.calls()) or (k in est):
+            roots.add(b.root if b.is_closure else k)
+    nsites = 0
+    nops = 0
+    for rk in sorted(roots):
+        root = prog.bodies[rk]
+        fam = prog.family(rk)
+        T = Taint(prog, root)
+        for x in fam:
+            for c in x.calls():
+                if c.key in est and c.dest is not None:
+                    T.seed(x, c.dest["l"], "estimate")
+        if rk in est or root.file.endswith("cost/estimator.rs"):
+            for i, t in enumerate(root.arg_tys()):
+                if t == "u64":
+                    T.seed(root, i + 1, "estimate")
+        T.run()
+        calls_src = any(c.key in est for x in fam for c in x.calls())
+        for x in fam:
+            for bb, i, pl, rv, st in x.assigns():
+                if rv["rv"] in ("binop", "checked_binop") and rv["op"] in ("AddWithOverflow", "MulWithOverflow") and x.local_ty(pl["l"]).startswith("(u64"):
+                    nops += 1
+                    ta = T.op_taint(x, rv["a"]) or T.op_taint(x, rv["b"])
+                    if ta:
+                        nsites += 1
+                        ln = st.get("ln") if isinstance(st, dict) else None
+                        R.ob("C17-R4", "%s:%s@%s" % (root.name.split("::")[-1], rv["op"][:3].lower(), _opdesc(x, rv)),
+                             "%s combines estimates with a saturating operation" % root.name, False, where=x.where(ln),
+                             detail="`%s` on a value that comes from the estimator (%s): with overflow-checks (the project's dev/test profile) a saturated "
+                                    "estimate makes this panic; in release it wraps to a small cost" % ("+" if rv["op"].startswith("Add") else "*", _opdesc(x, rv)))
+            for c in x.calls():
+                if c.name() in ("sum", "product") and c.dest is not None and x.local_ty(c.dest["l"]) == "u64":
+                    nops += 1
+                    tainted = bool(c.args and T.op_taint(x, c.args[0])) or _iter_closure_calls(prog, x, c, est)
+                    if tainted:
+                        nsites += 1
+                        R.ob("C17-R4", "%s:%s" % (root.name.split("::")[-1], c.name()), "%s combines estimates with a saturating operation" % root.name,
+                             False, where=x.where(c.ln), detail="`Iterator::%s` over estimates panics on overflow under overflow-checks" % c.name())
+        R.ob("C17-R4", "scanned:" + root.name.split("::")[-1], "%s: every operation on an estimate saturates" % root.name,
+             True, where=root.where())
+    R.ob("C17-R4", "summary", "functions that consume estimates: %d; unchecked u64 additions/multiplications/sums seen in them: %d, on estimates: %d"
+         % (len(roots), nops, nsites), nsites == 0)
+
+
+def _opdesc(x, rv):
+    def nm(o, depth=0):
+        pl = F.op_place(o)
+        if pl is None:
+            return str(o.get("d") or o.get("v") or "const").split("::")[-1]
+        n = x.local_name(pl["l"])
+        if n:
+            return n
+        ds = x.defs().get(pl["l"], [])
+        if len(ds) == 1 and depth < 3:
+            d = ds[0]
+            if d[0] == "call":
+                return d[2].name() + "()"
+            if d[0] == "assign":
+                rv2 = d[3]
+                if rv2["rv"] in ("binop", "checked_binop"):
+                    return "(%s%s%s)" % (nm(rv2["a"], depth + 1), {"Add": "+", "Mul": "*", "Sub": "-", "Div": "/"}.get(rv2["op"][:3], rv2["op"]), nm(rv2["b"], depth + 1))
+                if rv2["rv"] in ("use", "cast"):
+                    return nm(rv2["op"], depth + 1)
+        return "tmp"
+    return "%s,%s" % (nm(rv["a"]), nm(rv["b"]))
+
+
+def _iter_closure_calls(prog, x, c, est):
+    """the iterator summed is a map whose closure calls an estimator function"""
+    from lib import pipeline as P
+    if not c.args:
+        return False
+    t = P.tree(x, c.args[0], stop_named=False)
+    names, roots = P.flat(t)
+    for cl in prog.closures_of(x.key, recursive=False):
+        if any(ic.key in est for y in prog.family(cl.key) for ic in y.calls()):
+            # the closure feeds this pipeline if it is an argument of one of its adaptors
+            for c2 in x.calls():
+                if c2.name() in names and any(P._closure_calls(prog, x, a)[0] == cl.key for a in c2.args):
+                    return True
+    return False
 
 
 def r3(R):
